@@ -52,13 +52,70 @@ def prepend_scope(scope, name):
     return f"{scope}.{base}"
 
 
+MUTATIONS = ("set_defaults", "set_bound", "mut_rename", "mut_scope", "mut_drop", "mut_add", "mut_replace")
+
+
+def sel_arg(x):
+    """JSON form (None | "*" | list) of an `inputs=` / `outputs=` argument -> what update_scope is called with."""
+    return x if x is None or x == "*" else set(x)
+
+
+def scope_names(p, inputs, outputs, exclude):
+    """The names `Pipeline.update_scope(scope, inputs, outputs, exclude)` is documented to rename."""
+    roots, outs = set(p.topological_generations.root_args), set(p.all_output_names)
+    i = roots if inputs == "*" else (set(inputs) & roots if inputs else set())
+    o = outs if outputs == "*" else (set(outputs) & outs if outputs else set())
+    return (i | o) - set(exclude or ())
+
+
+def used_names(p):
+    return {a for f in p.functions for a in f.parameters} | set(p.all_output_names)
+
+
+def injective(rho, names):
+    return len({rho(a) for a in names}) == len(set(names))
+
+
+def build_func(fd, kind):
+    """A real PipeFunc for a one-function description (pipegen / mapgen format)."""
+    if kind == "map":
+        d = dict({"mapspec": None, "mapspec_str": None, "autogen": False, "ret": None, "internal": None, "defaults": [], "bound": []}, **fd)
+        p, _ = mapgen.build({"funcs": [d]}, log=NullLog())
+    else:
+        p, _ = pipegen.build({"funcs": [fd]}, log=NullLog())
+    return p.functions[0]
+
+
+def model_func(fd):
+    return {"name": fd["name"], "params": fd["params"], "outputs": fd["outputs"], "defaults": fd.get("defaults", []), "bound": fd.get("bound", []),
+            "mapspec": fd.get("mapspec"), "ret": fd.get("ret"), "internal": fd.get("internal")}
+
+
+def canon_spec(ms):
+    """A MapSpec string with its input arrays sorted by name: the order of the inputs of a MapSpec carries no meaning (arrays are
+    keyed by name) and depends on the traversal order of add_mapspec_axis."""
+    if ms is None or " -> " not in ms:
+        return ms
+    left, right = ms.split(" -> ", 1)
+    parts, depth, cur = [], 0, ""
+    for ch in left:
+        depth += ch == "["
+        depth -= ch == "]"
+        if ch == "," and depth == 0:
+            parts.append(cur.strip()); cur = ""
+        else:
+            cur += ch
+    parts.append(cur.strip())
+    return ", ".join(sorted(parts)) + " -> " + right
+
+
 def summary(p):
     out = []
     for f in p.functions:
         out.append({"outputs": list(at_least_tuple(f.output_name)), "params": list(f.parameters),
                     "defaults": sorted([[k, terms.enc(v)] for k, v in f.defaults.items()], key=lambda kv: kv[0]),
                     "bound": sorted([[k, terms.enc(v)] for k, v in f.bound.items()], key=lambda kv: kv[0]),
-                    "mapspec": str(f.mapspec) if f.mapspec is not None else None, "nested": isinstance(f, NestedPipeFunc)})
+                    "mapspec": canon_spec(str(f.mapspec)) if f.mapspec is not None else None, "nested": isinstance(f, NestedPipeFunc)})
     return sorted(out, key=lambda d: d["outputs"])
 
 
@@ -69,7 +126,7 @@ def model_summary(js):
                     # the model's association lists stand for dicts: a later entry overwrites an earlier one
                     "defaults": sorted([[k, v] for k, v in {k: terms.canon(v) for k, v in d["defaults"]}.items()], key=lambda kv: kv[0]),
                     "bound": sorted([[k, v] for k, v in {k: terms.canon(v) for k, v in d["bound"]}.items()], key=lambda kv: kv[0]),
-                    "mapspec": d["mapspec"], "nested": d["nested"]})
+                    "mapspec": canon_spec(d["mapspec"]), "nested": d["nested"]})
     return sorted(out, key=lambda d: d["outputs"])
 
 
@@ -100,6 +157,7 @@ class Ent:
         self.domit = {}             # output -> the roots that were left out
         self.summary = None
         self.loose = False          # values may legitimately differ from the ancestors' (a consumed output was dropped)
+        self.rets = {}              # map pipelines: original output name -> shape of the arrays the wrapped function returns
 
 
 def kwval(tag):
@@ -127,6 +185,8 @@ class Runner:
         self.plan = []
         self.problems = []          # (what, found_input, item, impl, model) evaluated on the implementation alone
         self.counts = []
+        self.halted = False         # a refused in-place mutation may leave its target half-changed: the history ends there
+        self.last = None            # the last performed rewrite: (kind, new name, [old names])
         for name, d in env_descs:
             desc = d["desc"]
             if d["kind"] == "call":
@@ -140,6 +200,7 @@ class Runner:
                           kinds=dict(desc["input_kinds"]))
             ent.tags = {r: r for r in self.roots(p)}
             ent.labels = {o: o for o in p.all_output_names}
+            ent.rets = {o: f.get("ret") for f in desc["funcs"] for o in f["outputs"]} if d["kind"] == "map" else {}
             self.env[name] = ent
             self.env_req.append([name, {"funcs": funcs}])
             self.observe(name, first=True)
@@ -249,10 +310,11 @@ class Runner:
         """Returns True when the implementation performed the op."""
         kind = op["op"]
         self.counts.append(f"op:{kind}")
-        if kind in ("set_defaults", "set_bound"):
+        if kind in MUTATIONS:
             return self.apply_mutation(op)
         src = self.env[op["src"]]
         rho = lambda n: n  # noqa: E731
+        cats = []
         loose = False        # set for an op whose result is not required to compute what its source computes
         other = None
         try:
@@ -263,17 +325,33 @@ class Runner:
                 p = quiet(lambda: cloudpickle.loads(cloudpickle.dumps(src.p)))
             elif kind == "join":
                 other = self.env[op["other"]]
+                try:
+                    da, db = dict(src.p.defaults), dict(other.p.defaults)
+                    shared = [k for k in da if k in db]
+                    if any(da[k] != db[k] for k in shared):
+                        self.counts.append("cat:join-clash")
+                    elif shared:
+                        self.counts.append("cat:join-equal-defaults")
+                except Exception:  # noqa: BLE001
+                    pass
                 p = quiet(src.p.join, other.p) if op.get("via") != "or" else quiet(lambda: src.p | other.p)
             elif kind == "rename":
                 m = dict(op["map"])
                 p = quiet(src.p.copy)
-                quiet(p.update_renames, m)
                 rho = lambda n: m.get(n, n)  # noqa: E731
+                quiet(p.update_renames, m)
             elif kind == "scope":
                 p = quiet(src.p.copy)
                 names = set(self.roots(src.p)) | set(src.p.all_output_names)
-                quiet(p.update_scope, op["scope"], "*", "*")
+                cats = self.scope_categories(src.p, dict(op, inputs="*", outputs="*"))
                 rho = lambda n: prepend_scope(op["scope"], n) if n in names else n  # noqa: E731
+                quiet(p.update_scope, op["scope"], "*", "*")
+            elif kind == "scope_sel":
+                p = quiet(src.p.copy)
+                sel_names = scope_names(src.p, op["inputs"], op["outputs"], op["exclude"])
+                cats = self.scope_categories(src.p, op)
+                rho = lambda n: prepend_scope(op["scope"], n) if n in sel_names else n  # noqa: E731
+                quiet(p.update_scope, op["scope"], sel_arg(op["inputs"]), sel_arg(op["outputs"]), set(op["exclude"]) if op["exclude"] is not None else None)
             elif kind == "nest":
                 p = quiet(src.p.copy)
                 sel = {p.output_to_func[o].output_name for o in op["sel"]}
@@ -291,18 +369,24 @@ class Runner:
             else:
                 raise AssertionError(kind)
         except Exception as e:  # noqa: BLE001
+            if kind in ("rename", "scope", "scope_sel") and not injective(rho, used_names(src.p)):
+                # a capturing renaming that the implementation happens to refuse (e.g. two defaults meet): outside the property as well
+                self.counts.append(f"capture-refused:{kind}")
+                self.check_unchanged(op["src"], f"after a refused capturing {kind}")
+                return False
             self.counts.append(f"refused:{kind}:{exc_enum(e)}")
             self.history.append(self.model_op(op))
             self.plan.append({"kind": "op", "op": op, "impl": {"err": exc_enum(e), "msg": str(e)[:200]}})
             self.check_unchanged(op["src"], f"after a refused {kind}")
             return False
-        if kind in ("rename", "scope"):
+        if kind in ("rename", "scope", "scope_sel"):
             used = {a for f in src.p.functions for a in f.parameters} | set(src.p.all_output_names)
             if len({rho(a) for a in used}) < len(used):
                 # a capturing (non-injective) renaming is outside the property: only the original must stay intact
                 self.counts.append(f"capture:{kind}")
                 self.check_unchanged(op["src"], f"after a capturing {kind}")
                 return False
+        self.counts += cats
         tags = {rho(r): t for r, t in src.tags.items()}
         labels = {rho(o): l for o, l in src.labels.items()}
         inputs, kinds, internal = dict(src.inputs), dict(src.kinds), [[rho(o), s] for o, s in src.internal]
@@ -317,6 +401,7 @@ class Runner:
         ent = Ent(p, "map" if (src.kind == "map" or (other is not None and other.kind == "map")) else "call", tags,
                   {o: labels.get(o, o) for o in p.all_output_names}, inputs, [x for x in internal if x[0] in p.all_output_names], kinds)
         ent.loose = loose
+        ent.rets = dict(src.rets, **(other.rets if other is not None else {}))
         self.env[op["dst"]] = ent
         self.history.append(self.model_op(op))
         self.plan.append({"kind": "op", "op": op, "impl": {"ok": True, "summary": summary(p)}})
@@ -355,30 +440,121 @@ class Runner:
         self.check_unchanged(op["src"], f"after {kind}")
         if other is not None:
             self.check_unchanged(op["other"], f"after {kind}")
+        self.last = ("scope" if kind == "scope_sel" else kind, op["dst"], [op["src"]] + ([op["other"]] if other is not None else []))
         return True
 
+    def inconsistent(self, e, ops):
+        """Reading the structure of an object of the environment (graph, root_args, leaf_nodes, ...) raised: its caches are
+        stale or its state is inconsistent after the operations so far."""
+        self.counts.append(f"inconsistent-object:{exc_enum(e)}")
+        self.problems.append((f"after {[o['op'] for o in ops]} reading the structure of a pipeline raises {exc_enum(e)}: {str(e)[:120]}", True, None,
+                              {"err": exc_enum(e), "msg": str(e)[:200]}, None))
+        self.halted = True
+
     def model_op(self, op):
-        return {k: v for k, v in op.items() if k not in ("malformed", "via", "sibling")}
+        return {k: v for k, v in op.items() if k not in ("malformed", "via", "sibling", "pair", "after", "which")}
+
+    def scope_categories(self, p, op):
+        """Which of the update_scope argument forms a (selective) scope op exercises."""
+        out = []
+        i, o, ex = op.get("inputs"), op.get("outputs"), op.get("exclude")
+        if i == "*" and o is None:
+            out.append("cat:scope-inputs-only")
+        if o == "*" and i is None:
+            out.append("cat:scope-outputs-only")
+        if isinstance(i, list) or isinstance(o, list):
+            out.append("cat:scope-explicit")
+        if ex:
+            out.append("cat:scope-exclude")
+        try:
+            bound = {a for f in p.functions for a in f.bound}
+            if bound and (i is not None or o is not None):
+                roots = set(self.roots(p))
+                out.append("cat:scope-bound:" + ("root-elsewhere" if bound & roots else "output" if bound & set(p.all_output_names) else "bound-everywhere"))
+            if (op.get("scope") and "." in op["scope"]) or any("." in n for n in used_names(p)):
+                out.append("cat:scope-nested:" + ("dotted-scope" if op.get("scope") and "." in op["scope"] else "rescope" if op.get("scope") else "unscope"))
+        except Exception:  # noqa: BLE001
+            pass
+        return out
 
     def apply_mutation(self, op):
+        """An in-place mutation of ONE object (`target`).  Afterwards the target is observed again (the model rebinds only
+        that name), every other object must be unchanged (structure, values, fresh copy), and the `pair` object — the other
+        side of the rewrite this mutation follows — is observed again too, so that BOTH are compared with the model."""
         ent = self.env[op["target"]]
         kind = op["op"]
-        m = {k: terms.dec(v) for k, v in op["map"]}
+        rho = lambda n: n  # noqa: E731
+        cats = []
         try:
             if kind == "set_defaults":
+                m = {k: terms.dec(v) for k, v in op["map"]}
                 quiet(ent.p.update_defaults, m)
-            else:
+            elif kind == "set_bound":
+                m = {k: terms.dec(v) for k, v in op["map"]}
                 quiet(ent.p[op["out"]].update_bound, m)
+            elif kind == "mut_rename":
+                m = dict(op["map"])
+                rho = lambda n: m.get(n, n)  # noqa: E731
+                if not injective(rho, used_names(ent.p)):
+                    self.counts.append("capture:mut_rename")
+                    return False
+                quiet(ent.p.update_renames, m)
+            elif kind == "mut_scope":
+                sel_names = scope_names(ent.p, op["inputs"], op["outputs"], op["exclude"])
+                rho = lambda n: prepend_scope(op["scope"], n) if n in sel_names else n  # noqa: E731
+                if not injective(rho, used_names(ent.p)):
+                    self.counts.append("capture:mut_scope")
+                    return False
+                cats = self.scope_categories(ent.p, op)
+                quiet(ent.p.update_scope, op["scope"], sel_arg(op["inputs"]), sel_arg(op["outputs"]),
+                      set(op["exclude"]) if op["exclude"] is not None else None)
+            elif kind == "mut_drop":
+                quiet(lambda: ent.p.drop(output_name=op["out"]))
+                cats = ["cat:drop"]
+            elif kind == "mut_add":
+                quiet(ent.p.add, build_func(op["func"], ent.kind))
+                cats = ["cat:add"]
+            elif kind == "mut_replace":
+                quiet(ent.p.replace, build_func(op["func"], ent.kind))
+                cats = ["cat:replace"]
+            else:
+                raise AssertionError(kind)
         except Exception as e:  # noqa: BLE001
             self.counts.append(f"refused:{kind}:{exc_enum(e)}")
             self.history.append(self.model_op(op))
             self.plan.append({"kind": "op", "op": op, "impl": {"err": exc_enum(e), "msg": str(e)[:200]}})
+            if kind.startswith("mut_"):
+                self.halted = True
             return False
+        self.counts += cats
+        if op.get("after"):
+            self.counts.append(f"mutation-after:{op['after']}:{kind}:{op['which']}")
         self.history.append(self.model_op(op))
         self.plan.append({"kind": "op", "op": op, "impl": {"ok": True, "summary": summary(ent.p)}})
-        for k in m:
-            ent.tags.setdefault(k, k)
+        # --- name tracking of the mutated entry
+        ent.tags = {rho(r): t for r, t in ent.tags.items()}
+        ent.labels = {rho(o): l for o, l in ent.labels.items()}
+        ent.internal = [[rho(o), sh] for o, sh in ent.internal]
+        if kind in ("mut_add", "mut_replace"):
+            for o in op["func"]["outputs"]:
+                ent.labels[o] = o           # a fresh function: its terms record its own names
+                ent.rets[o] = op["func"].get("ret")
+        outs_now = set(ent.p.all_output_names)
+        ent.labels = {o: ent.labels.get(o, o) for o in outs_now}
+        ent.internal = [x for x in ent.internal if x[0] in outs_now]
+        for r in self.roots(ent.p):
+            ent.tags.setdefault(r, r)       # a parameter that became a root argument (dropped producer, fresh function)
+        before = dict(ent.vals)
         self.observe(op["target"])
+        if kind in ("mut_rename", "mut_scope") and not ent.loose:
+            # the property, on the implementation alone: update_renames / update_scope IN PLACE keep every output's value up to the renaming
+            for o, b in before.items():
+                if o != "*" and "value" in b and "*" not in ent.vals and ent.vals.get(rho(o)) != b:
+                    self.problems.append((f"{kind} in place: output `{rho(o)}` of `{op['target']}` differs from `{o}` before the renaming", True, None,
+                                          ent.vals.get(rho(o)), b))
+            if "*" in ent.vals and "*" not in before and before:
+                self.problems.append((f"{kind} in place: the map of `{op['target']}` fails ({ent.vals['*'].get('err')}) where it ran before", True, None,
+                                      ent.vals["*"], None))
         for name in self.env:
             if name != op["target"]:
                 self.check_unchanged(name, f"after {kind} on `{op['target']}`")
@@ -391,14 +567,22 @@ class Runner:
                 if s2 != other.summary:
                     self.problems.append((f"after {kind} on `{op['target']}` a fresh copy of `{name}` no longer has the structure of `{name}` (shared state)",
                                           True, None, s2, other.summary))
+        pair = op.get("pair")
+        if pair is not None and pair in self.env and pair != op["target"]:
+            self.observe(pair)              # the OTHER object of the rewrite, compared with the model once more
         return True
 
     # ------------------------------------------------------------------ add_mapspec_axis
     def apply_add_axis(self, op):
         src = self.env[op["src"]]
-        q, axis, K = op["param"], op["axis"], 2
+        q, axis, K = op["param"], op["axis"], int(op.get("K", 2))
         tag = src.tags.get(q, q)
-        base = src.inputs[tag]
+        # a pipeline without MapSpecs (call kind) is mapped with one plain value per root argument
+        src_inputs = dict(src.inputs) if src.kind == "map" else {src.tags.get(r, r): kwval(src.tags.get(r, r)) for r in self.roots(src.p)}
+        if [src.tags.get(r, r) for r in self.roots(src.p)].count(tag) != 1:
+            self.counts.append("add_axis:skipped-shared-tag")
+            return False
+        base = src_inputs[tag]
 
         def variant(n):
             if isinstance(base, dict) and "arr" in base:
@@ -429,11 +613,20 @@ class Runner:
         # pointwise runs of the ORIGINAL pipeline, one per variant
         point = []
         for n in range(K):
-            e = Ent(src.p, "map", src.tags, src.labels, dict(src.inputs, **{tag: vs[n]}), src.internal, dict(src.kinds, **{tag: "array"}))
+            e = Ent(src.p, "map", src.tags, src.labels, dict(src_inputs, **{tag: vs[n]}), src.internal, dict(src.kinds, **{tag: "array"}))
             point.append(self.run_map(e))
-        ent = Ent(p, "map", dict(src.tags), dict(src.labels), dict(src.inputs, **{tag: stacked}), [list(x) for x in src.internal],
+            # the pointwise run of the ORIGINAL for variant n is compared with the model as well (with `lifted == model` and
+            # `slices of lifted == pointwise` on the implementation this carries the clause over to the model's runs)
+            pin = dict(src_inputs, **{tag: vs[n]})
+            self.history.append({"op": "map", "target": op["src"],
+                                 "inputs": [[r, pin[src.tags.get(r, r)]] for r in self.roots(src.p) if src.tags.get(r, r) in pin],
+                                 "internal": src.internal})
+            self.plan.append({"kind": "map", "name": op["src"], "impl": point[n], "labels": dict(src.labels), "pointwise": n})
+            self.counts.append("add_axis:pointwise-run-compared-with-model")
+        ent = Ent(p, "map", dict(src.tags), dict(src.labels), dict(src_inputs, **{tag: stacked}), [list(x) for x in src.internal],
                   dict(src.kinds, **{tag: "array"}))
         ent.loose = True
+        ent.rets = dict(src.rets)
         self.env[op["dst"]] = ent
         self.history.append(self.model_op(op))
         self.plan.append({"kind": "op", "op": op, "impl": {"ok": True, "summary": summary(p)}})
@@ -476,11 +669,29 @@ class Runner:
                             self.problems.append((f"add_mapspec_axis: slice {n} of `{o}` is not the original result for {q}=variant {n}", True, None,
                                                   got, point[n][o]["value"]))
                             break
-                elif ob != point[0][o] or ob != point[1][o]:
+                elif any(ob != point[n][o] for n in range(K)):
                     self.problems.append((f"add_mapspec_axis: output `{o}` does not depend on `{q}` but changed", True, None, ob, point[0][o]))
-            self.counts.append(f"add_axis:checked:{len(dependents)}-dependents")
+            self.counts.append(f"add_axis:checked:{min(len(dependents), 4)}{'+' if len(dependents) > 4 else ''}-dependents")
+            self.counts.append(f"add_axis:K={K}:{src.kind}")
         self.check_unchanged(op["src"], "after add_mapspec_axis")
+        self.last = ("add_axis", op["dst"], [op["src"]])
         return True
+
+
+# Refusal classes that are compared (op kind -> the model's classes for which the implementation's exception class is a stable
+# fact of the pipefunc code, verified over seeds 0-3 and the thorough tier).  Left out on purpose: KeyError of nest / split (raised
+# by the harness's own lookup of the selected output, not by pipefunc), `scope` with "*","*" (no refusal was ever observed), refused
+# evaluations and maps (none / 4 observed).  Messages are never compared.
+CLASS_CHECKED = {
+    "join": {"ValueError"}, "rename": {"ValueError"}, "scope_sel": {"ValueError"}, "mut_scope": {"ValueError"},
+    "nest": {"ValueError", "RecursionError"}, "simplify": {"ValueError", "KeyError"}, "split": {"ValueError"},
+    "mut_drop": {"KeyError"}, "mut_replace": {"KeyError"}, "mut_add": {"ValueError"},
+}
+
+
+def impl_class(err):
+    """A cycle is `.fuel` (printed RecursionError) in the model and networkx's NetworkXUnfeasible in the implementation."""
+    return "RecursionError" if err == "Other:NetworkXUnfeasible" else err
 
 
 def judge_model(runner, steps):
@@ -491,6 +702,10 @@ def judge_model(runner, steps):
         if pl["kind"] == "op":
             impl, op = pl["impl"], pl["op"]
             if "err" in impl and "err" in st:
+                runner.counts.append(f"refusal-class:{op['op']}:{impl['err']}/{st['err']}")
+                if st["err"] in CLASS_CHECKED.get(op["op"], ()) and impl_class(impl["err"]) != st["err"]:
+                    yield (f"{op['op']} is refused by both, but with {impl['err']} ({impl.get('msg', '')[:60]}) where the model has {st['err']} ({st.get('why')})",
+                           False, f"correspondence:{op['op']}-refusal-class", impl, st)
                 continue
             if "err" in impl:
                 yield (f"{op['op']} is refused by the implementation ({impl['err']}: {impl.get('msg', '')[:80]}) on an input the model rewrites",
@@ -504,6 +719,14 @@ def judge_model(runner, steps):
                 yield (f"{op['op']}: the nested functions do not expose every inner output that is consumed outside "
                        f"(hypothesis `retainsAll` of C10_{'simplify' if op['op'] == 'simplify' else 'nest'}_partial fails on this case)", False,
                        f"theorem:C10_{op['op']}_partial-hypothesis", impl["summary"], st["summary"])
+            if op["op"] == "add_axis":
+                # `fragment`: the decidable hypotheses of C10_add_axis_kahn hold for this case; `liftok`: its intermediate conclusion
+                runner.counts.append(f"theorem-domain:C10_add_axis:{'in' if st.get('fragment') else 'out'}")
+                if st.get("liftok") is False:
+                    yield ("add_mapspec_axis: the MapSpecs the model attaches do not pass liftOKb although the hypotheses of C10_add_axis_kahn hold",
+                           False, "theorem:C10_add_axis_kahn", impl["summary"], st["summary"])
+            if op["op"] in ("nest", "simplify") and "domain" in st:
+                runner.counts.append(f"theorem-domain:C10_{op['op']}:{'in' if st['domain'] else 'out'}")
             ms = model_summary(st["summary"])
             if ms != impl["summary"]:
                 yield (f"structure after {op['op']} (parameters/outputs/defaults/bound/MapSpec) differs from the model", False,
@@ -511,6 +734,7 @@ def judge_model(runner, steps):
         elif pl["kind"] == "eval":
             impl = pl["impl"]
             if "err" in impl and "err" in st:
+                runner.counts.append(f"eval-refusal-class:{impl['err']}/{st['err']}")
                 continue
             if "err" in impl or "err" in st:
                 yield (f"`{pl['name']}`('{pl['out']}'){' [nested-dict keywords]' if pl.get('nested') else ''}: "
@@ -524,6 +748,7 @@ def judge_model(runner, steps):
             if "skip" in st:
                 continue
             if "*" in impl and "err" in st:
+                runner.counts.append(f"map-refusal-class:{impl['*'].get('err')}/{st['err']}")
                 continue
             if "*" in impl or "err" in st:
                 yield (f"map of `{pl['name']}`: {'implementation' if '*' in impl else 'model'} refuses, the other runs", False,
